@@ -95,6 +95,9 @@ func c12Pay(c *fw.Ctx, i int) {
 			minMTU = 12
 		}
 		mtu := r.Pick(minMTU, minMTU+1, minMTU+2, 20, 100, 1200, r.Range(minMTU, 60), r.Range(minMTU, 1500))
+		if r.Chance(1, 150) {
+			mtu = r.Pick(32767, 32768, 32769, 40000, 65534, 65535) // the MTU is a uint16: values with bit 15 set are ordinary
+		}
 		extra := r.Pick(0, 1, mtu-len(hb)-3, mtu-len(hb)-11, mtu, 2*mtu, r.Range(0, 3*mtu))
 		if extra < 0 {
 			extra = 0
